@@ -30,12 +30,15 @@ def compute_mc_paths_giles(rmse: float, vl: np.array, cl: np.array) -> np.array:
     :return: the updated number of Monte-Carlo paths for each level l
     """
     theta = 0.25
-    cl_zerocost = cl.copy()
-    cl_zerocost[
-        cl_zerocost == 0
-    ] = 1e30  # to avoid potential division by 0 in the following line
+    # to avoid potential division by 0 in the following lines, a level with zero cost is given the smallest positive
+    # cost (a huge cost would leave it with a single path and the variance budget would not be met)
+    cl_zerocost = np.array(cl, dtype=float)
+    positive_costs = cl_zerocost[cl_zerocost > 0]
+    cl_zerocost[cl_zerocost == 0] = positive_costs.min() if positive_costs.size else 1.0
     return np.ceil(
-        np.sqrt(vl / cl_zerocost) * np.sum(np.sqrt(vl * cl)) / ((1 - theta) * rmse**2)
+        np.sqrt(vl / cl_zerocost)
+        * np.sum(np.sqrt(vl * cl_zerocost))
+        / ((1 - theta) * rmse**2)
     ).astype(int)
 
 
